@@ -31,8 +31,9 @@ HD1 == <<S1(1, 0, 1), S1(2, Missing, 1), S1(3, 1, 2)>>
 HD2 == <<S1(4, 1, 1), S1(5, 0, 1)>>
 HD3 == <<S1(3, 1, 2), S1(1, 0, 1)>>
 HD4 == <<S1(2, 0, 2)>>
+HD5 == <<S1(2, Missing, 1), S1(4, Missing, 2)>>   \* no label at all (an only_labeled window must become empty)
 MCDataSets == {HD1, HD2, HD3, HD4}
-MCHistDataSets == {HD1, HD2, HD3}   \* data sets of the generated histories
+MCHistDataSets == {HD1, HD2, HD3, HD5}   \* data sets of the generated histories
 
 \* --- all small data sets (C12): ids {1,2}, labels {0,1,Missing}, the
 \* first sample with weights {1,2}
